@@ -29,7 +29,8 @@ triple, a non-iterable where a set is expected, …) are outside the model.
 import AutomataVerif.Model.Basic
 import AutomataVerif.Generated.ValidateLits
 
-namespace AV
+namespace AV.VA
+open AV
 
 /-- `self.final_states - self.states` is empty. -/
 def subsetB {β : Type} [DecidableEq β] (l r : List β) : Bool := l.all fun x => decide (x ∈ r)
@@ -338,4 +339,4 @@ def validate (d : MNTM σ γ) : Res Unit :=
 
 end MNTM
 
-end AV
+end AV.VA
